@@ -29,6 +29,15 @@ static const char K_RESIZE[] = "C03-resize-buffer-one-short";  // igris::ring::r
 namespace
 {
 const unsigned kMaxOps = 200; // history length bound
+// The *_large targets: ring sizes around 256 and 512 (and, for the byte rings, 65536) with histories long
+// enough to fill, wrap and drain them; everything else is shared with the small-size targets.
+static bool g_large = false;
+struct LargeMode
+{
+    LargeMode() { g_large = true; }
+    ~LargeMode() { g_large = false; }
+};
+static unsigned max_ops(unsigned n) { return !g_large ? kMaxOps : n > 1000 ? 16 : 3 * n + 40; }
 
 bool is_pow2(unsigned x)
 {
@@ -63,7 +72,8 @@ std::vector<uint8_t> gen_data(Src &s, size_t k)
     std::vector<uint8_t> d(k);
     if (!k)
         return d;
-    switch (s.weighted({3, 3, 1}))
+    // long runs in the large targets are ramps or constant (keeps the choice sequence short)
+    switch (g_large && k > 24 ? 1 + s.weighted({3, 1}) : s.weighted({3, 3, 1}))
     {
     case 0:
         for (auto &b : d)
@@ -86,8 +96,20 @@ std::vector<uint8_t> gen_data(Src &s, size_t k)
     return d;
 }
 // ring size (number of slots) 2..40, small sizes over-weighted
-unsigned gen_size(Src &s)
+unsigned gen_size(Src &s, bool allow_huge = false)
 {
+    if (g_large)
+        switch (s.weighted({4, 2, 2, 1}))
+        {
+        case 0:
+            return (unsigned)s.range(250, 262);
+        case 1:
+            return (unsigned)s.range(508, 516);
+        case 2:
+            return (unsigned)s.range(41, 300);
+        default:
+            return allow_huge ? (unsigned)s.range(65530, 65542) : (unsigned)s.range(120, 136);
+        }
     switch (s.weighted({3, 2, 1}))
     {
     case 0:
@@ -355,11 +377,11 @@ struct CR
 
 void t_c_ring(Src &s, Case &c)
 {
-    unsigned n = gen_size(s);
+    unsigned n = gen_size(s, true);
     c.log("c_ring size=%u: ", n);
     CR R(c, n);
     R.check("init");
-    for (unsigned i = 0; i < kMaxOps; i++)
+    for (unsigned i = 0, ops = max_ops(n); i < ops; i++)
     {
         unsigned o = (unsigned)s.below(64);
         if (o == 0 && s.u8() == 0)
@@ -405,6 +427,16 @@ VP_TARGET("c_ring", t_c_ring,
           "move_head(_one)/move_tail(_one) under their room/avail preconditions/clean/for_each, bytes 0..255 with "
           "00/FF/80 over-weighted, against a std::deque; non-trivial = head wrapped and the ring was full and was "
           "drained to empty at least once each");
+
+void t_c_ring_large(Src &s, Case &c)
+{
+    LargeMode lm;
+    t_c_ring(s, c);
+}
+VP_TARGET("c_ring_large", t_c_ring_large,
+          "c_ring with ring sizes 250..262, 508..516, 41..300 and 65530..65542 (beyond one- and two-byte indices): histories of "
+          "3*size+40 operations (16 for the 64K sizes, where write/read move up to size+2 bytes at once), long runs as ramps or "
+          "constant bytes; same reference and checks; non-trivial as for c_ring");
 
 // ================================================================ C++ ring
 template <class T> struct Val;
@@ -764,7 +796,7 @@ template <> struct Gen<char>
 template <class T> void run_cxx(Src &s, Case &c, bool resize_cfg)
 {
     const bool is_char = sizeof(T) == 1;
-    unsigned size = gen_size(s);
+    unsigned size = gen_size(s, is_char);
     Gen<T> g;
     g.init(s);
     bool phased = s.below(3) != 0, filling = true;
@@ -775,7 +807,7 @@ template <class T> void run_cxx(Src &s, Case &c, bool resize_cfg)
         c.label("resize_cfg");
     XR<T> X(c, resize_cfg, size - 1);
     X.check("construction");
-    for (unsigned i = 0; i < kMaxOps; i++)
+    for (unsigned i = 0, ops = max_ops(size); i < ops; i++)
     {
         unsigned o = (unsigned)s.below(64);
         if (o == 0 && s.u8() == 0)
@@ -985,7 +1017,7 @@ void t_cyclic(Src &s, Case &c)
     c.log("cyclic_buffer<int>(%u): ", n);
     CY Y(c, n);
     Y.check("construction");
-    for (unsigned i = 0; i < kMaxOps; i++)
+    for (unsigned i = 0, ops = max_ops(n); i < ops; i++)
     {
         unsigned o = (unsigned)s.below(32);
         if (o == 0 && s.u8() == 0)
@@ -1022,6 +1054,23 @@ VP_TARGET("cyclic", t_cyclic,
           "cyclic_buffer<int>(n), n 2..40: history <= 200 of push (returned sample = the one overwritten) and "
           "operator[](i), i < min(pushed,n), against the last-n model; ring_counter_prev/last/fixup_pos/increment/set "
           "against modular arithmetic; non-trivial = more samples pushed than the buffer holds (counter wrapped)");
+
+void t_cxx_ring_large(Src &s, Case &c)
+{
+    LargeMode lm;
+    t_cxx_ring(s, c);
+}
+VP_TARGET("cxx_ring_large", t_cxx_ring_large,
+          "igris::ring<int> / ring<char> with sizes 250..262, 508..516, 41..300 (ring<char> also 65530..65542), histories of "
+          "3*size+40 operations; same reference and checks as cxx_ring");
+void t_cyclic_large(Src &s, Case &c)
+{
+    LargeMode lm;
+    t_cyclic(s, c);
+}
+VP_TARGET("cyclic_large", t_cyclic_large,
+          "cyclic_buffer<int>(n) and the ring_counter helpers with n 250..262, 508..516, 41..300 and 3n+40 operations; same model "
+          "as cyclic");
 
 // ============================================================== enumeration
 // A  c ring:      size n x (head,tail) x fill pattern(3) x op(4n+12)
